@@ -95,8 +95,10 @@ class Server:
         self.Ab = bytes_A
         self.S = self._derive_premaster_secret()
         self.Sb = long_to_bytes(self.S)
-        self.K = self._get_K()
-        self.Kb = long_to_bytes(self.K)
+        # The session key is the full digest: converting it to an integer and
+        # back would drop leading zero bytes (about one exchange in 256).
+        self.Kb = self._digest(self.Sb)
+        self.K = bytes_to_long(self.Kb)
         self.M = self._get_M()
         self.HAMK = self._get_HAMK()
 
@@ -111,3 +113,6 @@ class Server:
 
     def get_session_key(self):
         return self.K
+
+    def get_session_key_bytes(self):
+        return self.Kb
